@@ -103,6 +103,11 @@ func serializesAsNull(v reflect.Value) bool {
 		return serializesAsNull(v.Elem())
 	case reflect.Slice, reflect.Map:
 		return v.IsNil()
+	case reflect.Struct:
+		// the zoo's pass-through transform struct{B []byte} <-> []byte (kind 8): a nil B serializes as null
+		if v.Type() == reflect.TypeOf(TrRaw{}) {
+			return v.Field(0).IsNil()
+		}
 	}
 	return false
 }
